@@ -21,7 +21,8 @@ TP2p == /\ IsEvent("p2p")
               /\ NormalEq(rows, t.ys, t.x)
               /\ t.x = t.xstar
               /\ t.Hm = (IF t.dim = 2 THEN SmallMotion2(t.x) ELSE SmallMotion3(t.x))
-TraceNext == TReset \/ TSvd \/ TP2p
+TGeneric == IsEvent("generic") /\ GenericOK(Tr[l].res, Tr[l].float = 1)
+TraceNext == TGeneric \/ TReset \/ TSvd \/ TP2p
 TraceSpec == TraceInit /\ [][TraceNext]_l
 TraceAccepted == TLCGet("stats").diameter - 1 = Len(Tr)
 =============================================================================
